@@ -120,6 +120,11 @@ func c18Validity(snap *stack.Snapshot, base string, l *Layout, ts []fileTruth, c
 			}
 			continue
 		}
+		if snap.RemoteGOROOT != "" && hasPathPrefix(c.RemoteSrcPath, snap.RemoteGOROOT+"/src") && c.Location != stack.Stdlib {
+			// the detected Go root explains every frame below its src directory, also when the
+			// Go root itself lies inside a GOPATH (a toolchain in the module cache)
+			return fmt.Errorf("%s: lies below the detected remote Go root %q but is not classified as standard library", where, snap.RemoteGOROOT)
+		}
 		if c.Location == stack.GoMod {
 			// among the detected module roots the nearest one owns the file (a module nested
 			// in another one: Go's own rule)
